@@ -309,6 +309,17 @@ pub fn worker(args: &[String]) -> i32 {
             let d = run(&s);
             println!("RESULT {}", json!({"reproduced": !d.is_empty() && signature(&d) == rep.signature, "detail": d}));
         } else {
+            // The difference may depend on hash keys and absolute paths, which are different
+            // here from where it was found: add perturbation vectors until it shows again.
+            let mut d0 = run(&s);
+            while (d0.is_empty() || signature(&d0) != rep.signature) && s.vectors < 10 {
+                s.vectors += 1;
+                d0 = run(&s);
+            }
+            if !d0.is_empty() {
+                rep.signature = signature(&d0);
+                rep.detail = d0;
+            }
             // drop operations one at a time while the same difference persists
             let mut i = 0;
             let mut budget = 80;
